@@ -1,14 +1,20 @@
 ---------------------------- MODULE UnblockEnum ----------------------------
 (* Fault enumeration for the validating one-shot unblocker: a writer-shaped file of K blocks, cut at every length
-   0..K(P+T), and with every value 0..255 in every trailer cell.  For each case TLC evaluates the cell-level
+   0..K(P+T), with every value 0..255 in every trailer cell, and with BOTH trailer cells of a block replaced (every
+   equal pair, every pair over PairVals).  For each case TLC evaluates the cell-level
    definition WellBlocked on the faulted file and prints the required outcome class. *)
 EXTENDS Blocks
-CONSTANTS K, Slack      \* K blocks, the last one holding P - Slack data cells
+CONSTANTS K, Slack,     \* K blocks, the last one holding P - Slack data cells
+          PairVals      \* values whose every ordered pair replaces a whole trailer
 VARIABLE c
 Base == Blocks([i \in 1..(K * P - Slack) |-> 1], K)
 Cases == { <<"cut", n, 0, 0>> : n \in 0..(K * (P + T)) }
          \cup { <<"trailer", j, t, v>> : j \in 1..K, t \in 1..T, v \in 0..255 }
+         \cup { <<"pair", j, v, v>> : j \in 1..K, v \in 0..255 }
+         \cup { <<"pair", j, v, w>> : j \in 1..K, v \in PairVals, w \in PairVals }
 Faulted(case) == IF case[1] = "cut" THEN SubSeq(Base, 1, case[2])
+                 ELSE IF case[1] = "pair"
+                 THEN [Base EXCEPT ![(case[2] - 1) * (P + T) + P + 1] = case[3], ![(case[2] - 1) * (P + T) + P + 2] = case[4]]
                  ELSE [Base EXCEPT ![(case[2] - 1) * (P + T) + P + case[3]] = case[4]]
 Expected(case) == IF WellBlocked(Faulted(case)) THEN "ok" ELSE "liberr"
 Init == \E case \in Cases : c = case /\ PrintT(<<"T", case[1], case[2], case[3], case[4], Expected(case)>>)
